@@ -4,7 +4,7 @@ package main
 // is fixed to the simplest template (1) or is absent (0)
 func sc(kv ...interface{}) map[string]int {
 	m := map[string]int{"authFacts": 1, "authRule": 0, "authCheck": 0, "blocks": 0, "blkFacts": 0, "blkRule": 0, "blkCheck": 0,
-		"azFacts": 0, "azRule": 0, "azCheck": 0, "policies": 1, "polMode": 1}
+		"azFacts": 0, "azRule": 0, "azCheck": 0, "policies": 1, "polMode": 1, "polq": 1}
 	for i := 0; i+1 < len(kv); i += 2 {
 		m[kv[i].(string)] = kv[i+1].(int)
 	}
@@ -24,7 +24,7 @@ func init() {
 		Entries: []EntrySpec{
 			{Pkg: "biscuit", Func: "VerifC04Verdict", Quick: sc("authFacts", 1, "authRule", 2, "authCheck", 2, "policies", 1), Thorough: sc("authFacts", 2, "authRule", 2, "authCheck", 3, "policies", 2), Covers: []string{"allow", "failed"}},
 			{Pkg: "biscuit", Func: "VerifC04Verdict", Quick: sc("authFacts", 1, "blocks", 1, "blkFacts", 1, "blkRule", 2, "blkCheck", 1), Thorough: sc("authFacts", 1, "authRule", 1, "blocks", 1, "blkFacts", 1, "blkRule", 2, "blkCheck", 2), Covers: []string{"allow", "failed"}},
-			{Pkg: "biscuit", Func: "VerifC04Verdict", Quick: sc("authFacts", 2, "policies", 2, "polMode", 2), Thorough: sc("authFacts", 2, "authRule", 1, "policies", 3, "polMode", 2), Covers: []string{"allow", "denied", "nomatch"}},
+			{Pkg: "biscuit", Func: "VerifC04Verdict", Quick: sc("authFacts", 2, "policies", 2, "polMode", 1, "polq", 2), Thorough: sc("authFacts", 2, "authRule", 1, "policies", 2, "polMode", 2, "polq", 2), Covers: []string{"allow", "denied", "nomatch"}},
 			{Pkg: "biscuit", Func: "VerifC04Verdict", Quick: sc("authFacts", 1, "azFacts", 1, "azRule", 2, "azCheck", 1), Thorough: sc("authFacts", 1, "azFacts", 1, "azRule", 2, "azCheck", 3, "policies", 2), Covers: []string{"allow", "failed"}},
 		},
 		Assumptions: authzAssume,
@@ -115,8 +115,8 @@ func init() {
 		Harness: hs,
 		Entries: []EntrySpec{
 			{Pkg: "biscuit", Func: "VerifC12Presentation",
-				Quick:    p("authRule", 1, "authCheck", 0, "azRule", 1, "azRule2", 0, "qMode", 1, "policies", 1, "polMode", 1),
-				Thorough: p("authRule", 2, "authCheck", 1, "azRule", 1, "azRule2", 1, "qMode", 2, "policies", 2, "polMode", 1),
+				Quick:    p("authRule", 1, "authCheck", 0, "azRule", 1, "azRule2", 0, "qMode", 1, "policies", 1, "polMode", 1, "polq", 1),
+				Thorough: p("authRule", 2, "authCheck", 1, "azRule", 1, "azRule2", 1, "qMode", 2, "policies", 2, "polMode", 1, "polq", 1),
 				Covers:   []string{"compared"}},
 		},
 		Assumptions: authzAssume, Models: relModels,
